@@ -73,6 +73,18 @@ CHECKS = {
         "re-encoding and error (which must name the property) with the model, and the generator's validity label with the Coq validator.",
    note="As C06. PARTIAL: `validates s j -> decode succeeds and re-encodes to the kept part` is not a theorem in this round.",
    ref="DESIGN.md section 4 (C06-C08)"),
+ "C02": dict(
+   technique="Coq proof over a model of the generated response types and their method sets (inline responses, component responses with UsedIn, alias chains; Go's interface-satisfaction rule) that the implementers of an operation's response interface are exactly its documented responses, and that Write emits the documented status/Content-Type/headers/body + reflection over the compiled packages (Implements) and recorded wire responses",
+   text="C02_exact_implementers / C02_nothing_else: for every response document with distinct operation, component and type names and no "
+        "dangling alias, a declared type T satisfies <Op>Response iff T is one of op's inline response types or a name (component or alias, "
+        "through any chain) of a component response one of op's status keys refers to. C02_write_documented: the wire response of Write has "
+        "the documented status (caller's code for default), Content-Type, exactly the declared headers' texts and the body's encoding. Tie: "
+        "for every operation of the response corpus the driver enumerates, by reflection over ALL named types of the compiled package, those "
+        "(T or *T) implementing the interface; compared with the extracted model's implementers and with the documented set computed by the "
+        "corpus generator; every response value's recorded wire response is compared with the model's write.",
+   note="Go's method-set rule for aliases and unexported methods is modelled (four lines), not verified. Name derivation (Title/PublicFieldName) "
+        "is abstracted: names are compared relative to the operation's generated name; a derivation clash shows as a compile failure (reported).",
+   ref="DESIGN.md section 4 (C02)"),
  "C09": dict(
    technique="Coq proof that the handler's parse of the request built by the client model returns the sent parameter set (all locations, arrays, nullable, $refs; integer text round-trip proved, float/time as oracle hypotheses; body = JSON round-trip theorem) + differential run of the generated client against the generated server of the same package with an independent request validator on the wire",
    text="C09_params_agree: for every operation declaration, base path and parameter set of the domain the client model builds a request and "
